@@ -852,18 +852,35 @@ def probe_elapsed_carried() -> bool:
     reaches a flush (a synchronisation operation) iff the elapsed time it sees is beyond WRITE_PERIOD."""
     R = lambda a, **kw: dict({"th": "R", "a": a}, **kw)  # noqa: E731
     st = LoggerStand(fmts=("raw",), intervals=(0,))
+
+    def settle():
+        """let the call in progress finish, whatever synchronisation operations it performs (the code under test may differ
+        from the one this probe was written for)"""
+        for _ in range(60):
+            if st.sched.slots["R"].state == "idle":
+                return True
+            if st.sched.enabled("R"):
+                st.do(R("Op"))
+            elif st.sched.enabled("W"):
+                st.do({"th": "W", "a": "Op"})
+            else:
+                return False
+        return st.sched.slots["R"].state == "idle"
+
     try:
         for step in (R("Start"), R("Tick", dt=16), R("Pause"), R("Stop")):
             st.do(step)
-        for _ in range(12):
-            if st.sched.slots["R"].state == "idle":
-                break
-            st.do(R("Op"))
+            if not settle():
+                return True         # cannot tell: keep the model of the unmodified code (the verdict is on the files anyway)
         st.do(R("Start"))
+        if not settle():
+            return True
         e = st.do(R("Update", t="A"))
         carried = not e["ret"]
         st.drain()
         return carried
+    except HarnessError:
+        return True
     finally:
         st.restore()
 
